@@ -502,6 +502,113 @@ func genFactsPolicy(L *loader) (string, any, []string) {
 		emitStr("unlockHashFallthrough", r, "UnlockConditions.UnlockHash: final return")
 	}
 
+	// ---- where consensus calls Verify: the loop shape in validateV2Siacoins / validateV2Siafunds
+	// and the body of validateV2SpendPolicy. A memo, skip or extra branch changes these facts.
+	const cpkg = coreMod + "/consensus"
+	stmtCond := func(ifs *ast.IfStmt) string {
+		c := types.ExprString(ifs.Cond)
+		if ifs.Init != nil {
+			if as, ok := ifs.Init.(*ast.AssignStmt); ok && len(as.Lhs) >= 1 && len(as.Rhs) == 1 {
+				var lhs []string
+				for _, l := range as.Lhs {
+					lhs = append(lhs, types.ExprString(l))
+				}
+				return strings.Join(lhs, ", ") + " " + as.Tok.String() + " " + types.ExprString(as.Rhs[0]) + "; " + c
+			}
+			return "<init>; " + c
+		}
+		return c
+	}
+	if fd := L.funcs[cpkg+".validateV2SpendPolicy"]; fd == nil {
+		fail("consensus.validateV2SpendPolicy not found")
+	} else {
+		var params []string
+		for _, fl := range fd.Type.Params.List {
+			for _, n := range fl.Names {
+				params = append(params, n.Name+" "+types.ExprString(fl.Type))
+			}
+		}
+		emitList("spendPolicyParams", params, "consensus.validateV2SpendPolicy: parameters")
+		// the body must be one if/else-if chain followed by `return nil`
+		var chain []string
+		shape := "other"
+		if len(fd.Body.List) == 2 {
+			if ifs, ok := fd.Body.List[0].(*ast.IfStmt); ok {
+				if rs, ok := fd.Body.List[1].(*ast.ReturnStmt); ok && len(rs.Results) == 1 && types.ExprString(rs.Results[0]) == "nil" {
+					shape = "if-chain;return nil"
+					for cur := ifs; cur != nil; {
+						br := "error"
+						if len(cur.Body.List) != 1 {
+							br = "other"
+						} else if rs, ok := cur.Body.List[0].(*ast.ReturnStmt); !ok || len(rs.Results) != 1 || types.ExprString(rs.Results[0]) == "nil" {
+							br = "non-error"
+						}
+						chain = append(chain, stmtCond(cur)+" => "+br)
+						next, _ := cur.Else.(*ast.IfStmt)
+						if cur.Else != nil && next == nil {
+							chain = append(chain, "else => other")
+						}
+						cur = next
+					}
+				}
+			}
+		}
+		emitStr("spendPolicyShape", shape, "consensus.validateV2SpendPolicy: statement shape of the body")
+		emitList("spendPolicyChain", chain, "consensus.validateV2SpendPolicy: the branches, in order (condition => what the branch returns)")
+	}
+	loopFact := func(fn, rng, name string) {
+		fd := L.funcs[cpkg+"."+fn]
+		if fd == nil {
+			fail("consensus.%s not found", fn)
+			return
+		}
+		var facts []string
+		calls := 0
+		ast.Inspect(fd.Body, func(x ast.Node) bool {
+			if c, ok := x.(*ast.CallExpr); ok {
+				if id, ok := c.Fun.(*ast.Ident); ok && id.Name == "validateV2SpendPolicy" {
+					calls++
+				}
+			}
+			return true
+		})
+		for _, st := range fd.Body.List {
+			rs, ok := st.(*ast.RangeStmt)
+			if !ok || types.ExprString(rs.X) != rng {
+				continue
+			}
+			branches := 0
+			ast.Inspect(rs.Body, func(x ast.Node) bool {
+				if _, ok := x.(*ast.BranchStmt); ok {
+					branches++ // continue / break / goto would let an input skip the check
+				}
+				return true
+			})
+			for _, b := range rs.Body.List { // direct statements of the loop body only
+				ifs, ok := b.(*ast.IfStmt)
+				if !ok || ifs.Init == nil {
+					continue
+				}
+				as, ok := ifs.Init.(*ast.AssignStmt)
+				if !ok || len(as.Rhs) != 1 {
+					continue
+				}
+				call, ok := as.Rhs[0].(*ast.CallExpr)
+				if !ok {
+					continue
+				}
+				if id, ok := call.Fun.(*ast.Ident); ok && id.Name == "validateV2SpendPolicy" {
+					facts = append(facts, "for "+types.ExprString(rs.Key)+", "+types.ExprString(rs.Value)+" := range "+rng,
+						"unconditional: "+stmtCond(ifs), fmt.Sprintf("continue/break in loop: %d", branches))
+				}
+			}
+		}
+		facts = append(facts, fmt.Sprintf("calls in function: %d", calls))
+		emitList(name, facts, "consensus."+fn+": the spend-policy check — a direct statement of the range loop over every input")
+	}
+	loopFact("validateV2Siacoins", "txn.SiacoinInputs", "siacoinPolicyLoop")
+	loopFact("validateV2Siafunds", "txn.SiafundInputs", "siafundPolicyLoop")
+
 	sb.WriteString("\nend Gen.FactsPolicy\n")
 	return sb.String(), rep, errs
 }
